@@ -559,6 +559,11 @@ class C08(core.Check):
             'cherrypy.config; expr: a fixed pool of expressions + random combinations.  Non-trivial = the winner of a '
             'probe key is not the only setter, or a tool is configured, or a value is not a plain constant')
     assumptions = ('config values are opaque to the merge (tokens = repr); bool(v) and "v is None" are inputs',
+                   'the merge theorems take every dict of the request (global, _cp_config, sections) with each key once '
+                   '(Forall uniq: they are Python dicts); the tool theorems are about a toolbox run that raised nothing',
+                   'c08_unrepr_partial: dict literals whose keys are or contain bools / floats / complex numbers are '
+                   'outside the theorem (cross-type numeric key equality is not modelled); those INI values are still '
+                   'compared with the dict values by the oracle',
                    'configparser tokenisation and ast.parse are oracles (the harness compares to_ast with the real '
                    'parse of the real repr); "%" is written "%%" (interpolation is documented behaviour)',
                    'floats: a float is its sign and the repr token of its magnitude; arithmetic is modelled only '
